@@ -59,6 +59,7 @@ def load_findings():
 # ------------------------------------------------------------------------------------
 def shard_main(argv):
     prop, tier, seed, lo, hi, out = argv[0], argv[1], int(argv[2]), int(argv[3]), int(argv[4]), argv[5]
+    stride = int(argv[6]) if len(argv) > 6 else 1
     sys.path.insert(0, repo_path())
     assert_repo_import()
     oracle = load_oracle(prop)
@@ -69,7 +70,7 @@ def shard_main(argv):
     if hasattr(oracle, "setup"):
         oracle.setup(ctx)
     known = {f["mechanism"] for f in load_findings() if f["property"] == prop and f.get("status") == "open"}
-    monitor.run_cases(oracle, ctx, range(lo, hi), not_counted=known)  # open findings must not cut the exploration short
+    monitor.run_cases(oracle, ctx, range(lo, hi, stride), not_counted=known)  # open findings must not cut the exploration short
     if hasattr(oracle, "teardown"):
         oracle.teardown(ctx)
     d = ctx.dump()
@@ -91,27 +92,27 @@ def run_property(prop, tier, seed, replay=None):
             r = json.load(fh)
         seed = r["seed"]
         tier = r.get("tier", tier)
-        ranges = [(c, c + 1) for c in sorted(set(r["cases"]))][:16]
+        ranges = [(c, c + 1, 1) for c in sorted(set(r["cases"]))][:16]
         total = len(ranges)
     else:
         total = int(os.environ.get("VERIF_CASES", oracle.TIERS[tier]))
         nshard = max(1, min(int(os.environ.get("VERIF_JOBS", os.cpu_count() or 4)), total, 16))
-        # interleave would balance better but contiguous keeps replay trivial; sizes are iid anyway
-        step = -(-total // nshard)
-        ranges = [(i, min(i + step, total)) for i in range(0, total, step)]
+        # interleaved: shard i runs the cases i, i+n, i+2n, ... (the expensive families sit at particular index ranges -
+        # random histories before the exhaustive ones, scale cases at small indices - so contiguous blocks balance badly)
+        ranges = [(i, total, nshard) for i in range(nshard)]
     watchdog = int(os.environ.get("VERIF_WATCHDOG_S", getattr(oracle, "WATCHDOG_S", {}).get(tier, 3000)))
     tmpd = tempfile.mkdtemp(prefix="hgxmon_")
     procs = []
     dumps, inconclusive = [], []
     try:
-        for i, (lo, hi) in enumerate(ranges):
+        for i, (lo, hi, stride) in enumerate(ranges):
             out = os.path.join(tmpd, f"s{i}.json")
             log = open(os.path.join(tmpd, f"s{i}.log"), "w")
             p = subprocess.Popen(
-                [PY, "-m", "hgxmon.driver", "--shard", prop, tier, str(seed), str(lo), str(hi), out],
+                [PY, "-m", "hgxmon.driver", "--shard", prop, tier, str(seed), str(lo), str(hi), out, str(stride)],
                 cwd=VERIF, env=child_env(), stdout=log, stderr=subprocess.STDOUT,
             )
-            procs.append((p, out, log, (lo, hi)))
+            procs.append((p, out, log, (lo, hi, stride)))
         deadline = time.time() + watchdog
         for p, out, log, rng_ in procs:
             try:
